@@ -289,6 +289,12 @@ pub fn ill_formed() -> Vec<(&'static str, &'static str)> {
         ("stray token", "P 1s + to { a: 1.0 }"),
         ("stray string literal", "P 1s \"x\" to { a: 1.0 }"),
         ("delay with unknown suffix", "P after 3m to { a: 1.0 }"),
+        // the same mistakes in a member of a bracketed list (the other member is fine)
+        ("unknown unit after for, inside a list", "P [1s to { a: 1.0 }, for 2m to { a: 2.0 }]"),
+        ("delay without unit, inside a list", "P [1s after 500 to { a: 2.0 }, 1s to { a: 1.0 }]"),
+        ("delay with unknown suffix, inside a list", "P [1s to { a: 1.0 }, 1s after 3sec to { a: 2.0 }, 2s to { k: 3 }]"),
+        ("repeat count above u32::MAX, inside a list", "P [1s to { a: 1.0 }, 1s 4294967296x to { a: 2.0 }]"),
+        ("repeat count above u32::MAX", "P 1s 4294967296x to { a: 2.0 }"),
         ("percent with unit suffix", "P 1s 40s% { a: 1.0 }"),
         ("keyframe body not a field list", "P 1s to { 1.0 }"),
         ("negative repeat", "P 1s -1x to { a: 1.0 }"),
